@@ -166,7 +166,7 @@ SUITES = {
             ('permutation_invariance', _invariance, 'scoper name resolution (use_struct/use_constant), declaration sorting',
              'modules of 2..6 declarations drawn from 24 templates (incl. a word and structures that hold it by value and behind a pointer) (constants, structures, functions; shared names across namespaces, missing dependencies, duplicates): every one of 8 (thorough: all) permutations accepted or rejected alike; templates include declarations without a body (extern heads) and functions whose parameters and locals share their parameter names')],
     'C12': [('module_visibility', _modules, 'expand() (import fix-point), path resolution in context',
-             '33 module sets of 2..4 files (public/private function, constant, structure, opaque structure; direct, missing, transitive, diamond, duplicate, mutual and late imports; relative paths; look-alike file names; an empty or comment-only file and a bystander module among the files; parameter names of imported functions; an imported function with an array-view parameter, an imported word used as a member of a word, an imported structure's members) x file orders')],
+             '33 module sets of 2..4 files (public/private function, constant, structure, opaque structure; direct, missing, transitive, diamond, duplicate, mutual and late imports; relative paths; look-alike file names; an empty or comment-only file and a bystander module among the files; parameter names of imported functions; an imported function with an array-view parameter, an imported word used as a member of a word, the members of an imported structure) x file orders')],
     'C13': [('determinism', _determinism, 'HashMap/HashSet iteration order in scoper/typer/expander',
              'invalid and valid samples of the repository plus 4 constructed multi-error modules (these 8 times; thorough: 10), each compiled in 3 (thorough: 5) fresh processes'),
             ('diagnostic_locations', _locations, 'alpha parser span bookkeeping (location_of_span, combined_with call sites), error.rs',
